@@ -1228,6 +1228,8 @@ Definition mask_for (r : role) (k : key) (f : frame) : frame :=
 
 Definition drained (x : ctx) : ctx := set_codec x (set_out (x_codec x) []).
 
+(* _write sets unflushed_additional when it moves the additional frame into out_buffer; a successful
+   flush clears it again, so the flag survives only in the server-closing (ConnectionClosed) arm *)
 Definition flush_pure (x : ctx) (k : key) : res unit * ctx :=
   let c := x_codec x in
   let closing := role_eqb (x_role x) Server && closing_done (x_state x) in
@@ -1239,7 +1241,7 @@ Definition flush_pure (x : ctx) (k : key) : res unit * ctx :=
       let f1 := mask_for (x_role x) k msg in
       if c_max_out c <? frame_len f1 + blen (c_out c) then
         (ROk tt, set_unflushed (drained (set_additional_raw x (Some f1))) false)
-      else if closing then (RErr EConnectionClosed, set_state (drained (set_additional_raw x None)) Terminated)
+      else if closing then (RErr EConnectionClosed, set_state (drained (set_unflushed (set_additional_raw x None) true)) Terminated)
       else (ROk tt, set_unflushed (drained (set_additional_raw x None)) false)
   end.
 
